@@ -24,13 +24,17 @@ def concretise(abstract, rng, max_sec=36, block_pool=None, tr_map=None, vary_tr=
             b += 1
             a = rng.randint(1, max_sec - 6)
             if kind == "single":
-                nums, conns = [a], []
+                nums, conns = [a if rng.random() > 0.1 else max_sec], []
             elif kind == "and":
                 nums, conns = [a, rng.randint(1, max_sec)], ["AND"]
             elif kind == "thru":
-                nums, conns = [a, a + rng.randint(1, 3)], ["THRU"]
+                d_ = rng.randint(1, 5)
+                a = max_sec - d_ if rng.random() < 0.15 else rng.randint(1, max_sec - d_)      # (15%: up to the last section)
+                nums, conns = [a, a + d_], ["THRU"]
             else:
-                nums, conns = [a, a + rng.randint(1, 2), rng.randint(1, max_sec)], ["THRU", "AND"]
+                d_ = rng.randint(1, 2)
+                a = max_sec - d_ if rng.random() < 0.15 else rng.randint(1, max_sec - d_)
+                nums, conns = [a, a + d_, rng.randint(1, max_sec)], ["THRU", "AND"]
             secs.append({"nums": nums, "conns": conns, "block": b})
             blocks[b] = texts[b - 1]
         groups.append({"tr": (tr_map or {}).get(g["tr"], g["tr"]), "secs": secs})
@@ -54,7 +58,9 @@ def render_doc(doc, rng, colons=True, plain=False, str_connector=None, tr_templa
             blk = blocks[sg["block"]]
             if lay in ("TRS_desc", "S_desc_TR"):
                 sec = R.render_sec(sg["nums"], sg["conns"], colons, rng, plain=plain)
-                sparts.append("%s %s" % (sec, blk))
+                # (without its colon a section may still be set off from its description by other punctuation)
+                gap = " " if (colons or plain) else rng.choice([" ", " ", " ", "; ", ", ", " - "])
+                sparts.append("%s%s%s" % (sec, gap, blk))
             else:
                 sec = R.render_sec(sg["nums"], sg["conns"], False, rng, plain=plain)
                 sparts.append("%s of %s" % (blk, sec))
